@@ -199,9 +199,99 @@ def rule_r1(ctx: Ctx) -> None:
     ctx.sample({"rule": "C12.R1", "abstract_states": n_states, "example": "UINT8 x STR1_7F -> accept, stored Rational(0x7F); UINT8 x STR1_80 -> reject"})
 
 
+def rule_r5_concrete(ctx: Ctx) -> None:
+    """R1 / R4 decide the acceptance predicate over abstract states.  This rule constructs concrete constants - real type
+    objects, real expression values, the real constructor, all evaluated from the source - on both sides of every boundary
+    and compares acceptance and the stored value with the rule written down independently here."""
+    from fractions import Fraction
+
+    from ..absint import Raised, construct
+    from ..fold import Folder, Unfoldable
+    from . import concrete as C
+
+    ctx.rule("C12.R5", "concrete constants built by evaluation of Constant.__init__ over real type objects and expression values, on both sides of every range boundary (all widths 1..64 for the bounds, a sample for the rest): accepted exactly when compliant, rejected with an InvalidDefinitionError, and the stored value is the initializer (the code point for a character) [bounded grid]", min_instances=3)
+    T = C.Types(ctx)
+    E = "_expression._primitive."
+    const = ctx.cls("_serializable._attribute.Constant")
+    ide = ctx.cls("_error.InvalidDefinitionError")
+
+    def val(kind: str, v: Any) -> Any:
+        k = ctx.cls(E + kind)
+        try:
+            return construct(ctx, k, v, hook=T.hook_for(k))
+        except (Raised, Unfoldable) as ex:
+            raise AnalysisError("%s(%r) cannot be constructed: %s" % (kind, v, ex))
+
+    def native(x: Any) -> Any:
+        try:
+            return Folder({"x": x}, ctx.repo, const.module, None, T.hook_for(const)).fold(ast.parse("x.native_value", mode="eval").body)
+        except (Raised, Unfoldable) as ex:
+            raise AnalysisError("native_value of a constructed %s cannot be evaluated: %s" % (x._cls_.name, ex))
+
+    FMAX = {16: Fraction(65504), 32: (2 - Fraction(1, 2**23)) * 2**127, 64: (2 - Fraction(1, 2**52)) * 2**1023}
+    cases: List[Tuple[str, Any, Any, Any]] = []  # (label, type, value object, expected stored native value or None for rejection)
+    R = lambda q: val("Rational", Fraction(q))  # noqa: E731
+    full = ctx.tier == "thorough"
+    widths = range(1, 65) if full else (1, 2, 3, 7, 8, 9, 16, 31, 32, 33, 63, 64)
+    for n in widths:
+        for sat in (False, True):
+            t = T.uint(n, sat)
+            for q in (-1, 0, 1, 2**n - 1, 2**n, Fraction(1, 2)):
+                ok = q == int(q) and 0 <= q <= 2**n - 1
+                cases.append(("%s = %s" % (t.label, q), t, R(q), Fraction(q) if ok else None))
+        if n >= 2:
+            t = T.sint(n)
+            for q in (-(2 ** (n - 1)) - 1, -(2 ** (n - 1)), -1, 0, 2 ** (n - 1) - 1, 2 ** (n - 1), Fraction(-3, 2)):
+                ok = q == int(q) and -(2 ** (n - 1)) <= q <= 2 ** (n - 1) - 1
+                cases.append(("%s = %s" % (t.label, q), t, R(q), Fraction(q) if ok else None))
+    for n in (16, 32, 64):
+        t = T.float_(n)
+        for q in (0, Fraction(1, 3), FMAX[n], -FMAX[n], FMAX[n] + Fraction(1, 10**6), -FMAX[n] - 1, FMAX[n] * 2):
+            cases.append(("%s = %s" % (t.label, "%s%s" % ("" if abs(q) < 10**6 else "about ", float(q) if n < 64 or abs(q) < FMAX[64] else "2*max")), t, R(q), Fraction(q) if abs(q) <= FMAX[n] else None))
+        cases.append(("%s = true" % t.label, t, val("Boolean", True), None))
+        cases.append(("%s = 'a'" % t.label, t, val("String", "a"), None))
+    b = T.boolean()
+    cases += [("bool = true", b, val("Boolean", True), True), ("bool = false", b, val("Boolean", False), False), ("bool = 1", b, R(1), None), ("bool = 'a'", b, val("String", "a"), None)]
+    u8, u8s, u7, u16, i8 = T.uint(8), T.uint(8, True), T.uint(7), T.uint(16), T.sint(8)
+    for t in (u8, u8s):
+        cases += [("%s = 'a'" % t.label, t, val("String", "a"), Fraction(97)), ("%s = '~'" % t.label, t, val("String", "~"), Fraction(126)), ("%s = ''" % t.label, t, val("String", ""), None),
+                  ("%s = 'ab'" % t.label, t, val("String", "ab"), None), ("%s = 'e-acute'" % t.label, t, val("String", "\u00e9"), None), ("%s = NUL" % t.label, t, val("String", "\x00"), Fraction(0)),
+                  ("%s = true" % t.label, t, val("Boolean", True), None)]
+    for t in (u7, u16, i8):
+        cases.append(("%s = 'a'" % t.label, t, val("String", "a"), None))
+    inner = T.struct("Inner {uint8 p}", [("p", u8)])
+    for t in (T.void(8), T.varr(u8, 2), T.farr(u8, 2), inner):
+        cases.append(("%s = 1" % t.label, t, R(1), None))
+    bad_acc, bad_cls, bad_val = [], [], []
+    for label, t, v, want in cases:
+        got: Any
+        try:
+            o = construct(ctx, const, t.obj, "K", v, hook=T.hook_for(const))
+            got = native(Folder({"o": o}, ctx.repo, const.module, None, T.hook_for(const)).fold(ast.parse("o.value", mode="eval").body))
+            accepted = True
+        except Raised as r:
+            accepted, got = False, r.cls_name
+        except Unfoldable as ex:
+            raise AnalysisError("Constant(%s) cannot be evaluated: %s" % (label, ex))
+        ctx.count()
+        if accepted != (want is not None):
+            bad_acc.append({"constant": label, "found": "accepted" if accepted else "rejected (%s)" % got, "expected": "accepted" if want is not None else "rejected"})
+        elif accepted and not (got == want and type(got) is type(want) or (isinstance(want, Fraction) and isinstance(got, (int, Fraction)) and not isinstance(got, bool) and got == want)):
+            bad_val.append({"constant": label, "stored": repr(got), "expected": repr(want)})
+        elif not accepted:
+            k = next((k for k in ctx.repo.all_classes().values() if k.name == got), None)
+            if k is None or not ctx.repo.is_subclass(k, ide):
+                bad_cls.append({"constant": label, "raised": got})
+    where = const.methods["__init__"].where() if "__init__" in const.methods else const.module.relpath
+    ctx.check(not bad_acc, const.short + ".__init__", "%d concrete (type, initializer) pairs: accepted exactly when compliant" % len(cases), "a constant initializer is accepted if and only if it complies with its type", where, bad_acc[:5])
+    ctx.check(not bad_val, const.short + ".value", "stored values of the accepted ones", "the stored value is the initializer, exactly (the code point for a character)", where, bad_val[:5])
+    ctx.check(not bad_cls, const.short + ".__init__", "rejection classes", "every rejection is an InvalidDefinitionError", where, bad_cls[:5])
+
+
 def run(ctx: Ctx) -> None:
     ctx.attempt(rule_r2, ctx)
     ctx.attempt(rule_r1, ctx)
+    ctx.attempt(rule_r5_concrete, ctx)
     ctx.assume("fractions.Fraction arithmetic is exact (trusted stdlib)")
     ctx.assume("assert statements in Constant.__init__ are beliefs, not guards (python -O removes them)")
     ctx.analysed["modules"] = [ATTR, PRIM]
